@@ -25,7 +25,10 @@ RULE = ('seeded histories: 0-6 structural C10/C11 operations on identity-encoded
         'decorations: unicode strings, NaN/inf values, matrix-valued descriptors, absent measure) or an evaluation Result with '
         'fixed/weighted/select/interpolate models; then 2-8 file operations: save to {fresh path, existing path, open handle, '
         'previously written handle, BytesIO} x {hdf5, pkl} x overwrite on/off, with injected write faults (ENOSPC after n bytes, '
-        'EIO on k-th write) and crash snapshots right after save() returns; load by path, handle or from the crash snapshot. '
+        'EIO on k-th write) and crash snapshots right after save() returns; handles re-opened in append/update mode; save - edit '
+        'in place - save again; the loaded object saved again (second generation); two saves in flight at once (two threads '
+        'switched at the open/write calls of the file seam by a seeded scheduler, one running at a time); cycle-collector runs at '
+        'named instants; load by path, handle or from the crash snapshot. '
         'Non-trivial = at least one file-system call; distinct = distinct (object kind, producer, target, file type, overwrite, '
         'fault, load route) signatures, counted per file operation (several per run).')
 ASSUMPTIONS = ['the real file system of the sandbox holds the simulated directory; crash snapshot = bytes visible through a second '
@@ -449,7 +452,9 @@ def execute(plan, ctx):
     import rsatoolbox  # noqa
     ctx.components.update(['real:rsatoolbox.io.hdf5', 'real:rsatoolbox.io.pkl', 'real:rsatoolbox.util.file_io', 'real:h5py', 'real:pickle',
                            'real:file system (per-run scratch directory)', 'stub:file objects when a write fault is scheduled',
-                           'stub:rsatoolbox.io.pkl.open / rsatoolbox.io.hdf5.File (rebound to the seam)'])
+                           'stub:rsatoolbox.io.pkl.open / rsatoolbox.io.hdf5.File (rebound to the seam)',
+                           'stub:thread scheduling during concurrent saves (real threads, parked and released one at a time by a seeded scheduler)',
+                           'stub:cycle garbage collector (disabled; runs only at plan-named instants)'])
     kind = plan['kind']
     pool = Pool(ctx, PROPERTY)
     seam = RngSeam(ctx, plan['serve_seed'], {'rate': 0, 'kinds': []})
